@@ -4,7 +4,7 @@
    cpu_times_percent, Process.cpu_percent), specification: C07/Spec.v (kernel printer
    k_stat of /proc/stat, tick-level formulas).  Seconds and percentages are exact
    rationals; float rounding is outside the model (compared within one rounding step). *)
-From PV Require Import C07.Spec C07.ProofsParse C07.ProofsArith C07.ProofsState.
+From PV Require Import C07.Spec C07.ProofsParse C07.ProofsArith C07.ProofsState C07.ProofsScript.
 Local Open Scope Q_scope.
 
 (* ---- cpu_times(): every /proc/stat the kernel can print (any CPUs, nf >= 7 decimal counters
@@ -119,10 +119,49 @@ Theorem C07_per_thread_frame : forall clk n st others e,
 Proof. exact per_thread_frame. Qed.
 Print Assumptions C07_per_thread_frame.
 
-(* negative interval: ValueError, state untouched (system-wide functions and Process) *)
-Theorem C07_negative_interval : forall clk st e, e_iv e = INeg -> step clk st e = (st, Exc ValueError).
+(* negative interval: ValueError, state untouched (cpu_percent / cpu_times_percent, and Process below) *)
+Theorem C07_negative_interval : forall clk st e,
+  e_fn e <> FTimes -> e_iv e = INeg -> step clk st e = (st, Exc ValueError).
 Proof. exact step_negative. Qed.
 Print Assumptions C07_negative_interval.
+
+(* ---- THE SCRIPT THEOREM.  psutil is imported by thread mt while the kernel shows k0
+   (imp = Some (mt, k0); None = maps emptied), then any number of threads issue any sequence of
+   cpu_times / cpu_percent / cpu_times_percent calls (percpu or not; interval None, 0, > 0 with the
+   kernel moving from k1 to k2 during the sleep, < 0) over any /proc/stat contents the kernel can
+   print.  The model's results are the demanded ones: spec_run gives every call the value
+   computed from the kernel state at the call and the state sampled by the SAME thread's previous
+   call in the SAME series (the import-time state for the importing thread's first call, the
+   current state -- hence 0.0 -- for a thread without one), found by scanning the history.
+   Hypotheses, all decidable (script_ok / imp_wf, coq/C07/Spec.v): every kernel state has nf >= 7
+   decimal counters per cpu line and the same online CPU set ids; and, for cpu_times_percent calls
+   only, each compared pair has at least one CPU-second elapsed or did not move at all -- the class
+   excluded is exactly the known finding (C07_times_percent_refuted). *)
+Theorem C07_script_all_threads : forall clk nf ids imp evs,
+  imp_wf nf ids imp = true -> script_ok clk nf ids imp [] evs = true ->
+  Forall2 (out_eq sres_eq)
+          (run clk (sys_start clk (option_map (fun x => (fst x, k_stat (snd x))) imp)) (map to_event evs))
+          (spec_run clk imp [] evs).
+Proof. exact run_spec. Qed.
+Print Assumptions C07_script_all_threads.
+
+(* first calls as documented: the importing thread is measured against the import-time sample
+   in all four series; every other thread has no sample; without a sample cpu_percent() is 0.0 *)
+Theorem C07_first_call_importing_thread : forall mt k0 f p, prev_sample (Some (mt, k0)) [] mt f p = Some k0.
+Proof. exact first_call_importer. Qed.
+Print Assumptions C07_first_call_importing_thread.
+
+Theorem C07_first_call_other_thread : forall imp t f p,
+  match imp with Some (mt, _) => t <> mt | None => True end -> prev_sample imp [] t f p = None.
+Proof. exact first_call_other. Qed.
+Print Assumptions C07_first_call_other_thread.
+
+Theorem C07_no_previous_sample_zero : forall clk imp hist e,
+  ke_fn e = FPercent -> ke_percpu e = false -> ke_iv e = INone \/ ke_iv e = IZero ->
+  prev_sample imp hist (ke_tid e) FPercent false = None ->
+  spec_result clk imp hist e = Val (RNum 0).
+Proof. exact no_sample_zero. Qed.
+Print Assumptions C07_no_previous_sample_zero.
 
 Theorem C07_proc_negative_interval : forall clk st e, pe_iv e = INeg -> proc_step clk st e = (st, Exc ValueError).
 Proof. exact proc_negative. Qed.
